@@ -68,10 +68,12 @@ def classify(seg):
         res = e.get("res", {})
         if e.get("panic"):
             sig["class"] = "panic"
-        elif e.get("how") == "hole" and e.get("flip") == 2 and not res.get("err"):
-            # the first segment kept nothing but its leading crc record: running CRC 0, the
-            # chain check against the next segment is skipped
+        elif e.get("segfirst") and e.get("how") in ("hole", "flip"):
+            # the first file read kept nothing but its leading crc record, or that record's
+            # length field reads 0 ("empty file"): running CRC 0, the chain check against the
+            # next segment is skipped
             sig["class"] = "crc-chain-vacuous-after-first-crc"
+            sig.pop("kind")
         elif e.get("how") == "flip" and e.get("where") in ("type", "typetag"):
             # the record type is outside the CRC: a flipped type byte re-types an intact record
             sig["class"] = "record-type-unprotected"
@@ -109,7 +111,7 @@ def drive(ctx, zr, name, args, parts, stats, samples, timeout=2400):
             ctx.skipped += 1
             continue
         for k in ("histories", "sim_histories", "calls", "cuts", "restarts", "images", "repaired", "big_entries",
-                  "segments_purged", "releases", "syncs"):
+                  "segments_purged", "releases", "syncs", "concurrent_batches"):
             stats[k] = stats.get(k, 0) + summ.get(k, 0)
         stats["max_entry_bytes"] = max(stats.get("max_entry_bytes", 0), summ.get("max_entry_bytes", 0))
         for k in ("by_kind", "by_tail", "by_outcome"):
@@ -251,6 +253,9 @@ def run(ctx):
         drive(ctx, zr, "sizes", ["-seed", seed, "-sizes", "1"], 1, stats, samples)
     else:
         drive(ctx, zr, "sizes", ["-seed", seed, "-sizes", "6", "-sizevariants", "3"], 3, stats, samples)
+    # two goroutines on one WAL (raft loop: Save; snapshot goroutine: SaveSnapshot + ReleaseLockTo);
+    # the calls are logged in the order the WAL's mutex serialized them, read off the record order
+    drive(ctx, zr, "concurrent", ["-seed", seed, "-conc", "12" if q else "120", "-maximg", "6"], 2 if q else 6, stats, samples)
     # lock release and purge: wal.Sync / ReleaseLockTo(snapshot index) / one pass of the real
     # fileutil purge / restarts at the newest valid marker, on tiny segments that roll often;
     # ZWalTrace bounds what purge may remove (Purge(max, k), k <= MaxPurge) and judges every image
@@ -318,7 +323,7 @@ def run(ctx):
         model_runs=runs,
         histories=stats.get("histories", 0), tlc_generated_histories=stats.get("sim_histories", 0),
         calls=stats.get("calls", 0), segment_rolls=stats.get("cuts", 0), clean_restarts=stats.get("restarts", 0),
-        lock_releases=stats.get("releases", 0), wal_syncs=stats.get("syncs", 0), segments_purged=stats.get("segments_purged", 0),
+        concurrent_batches=stats.get("concurrent_batches", 0), lock_releases=stats.get("releases", 0), wal_syncs=stats.get("syncs", 0), segments_purged=stats.get("segments_purged", 0),
         entries_over_1MB=stats.get("big_entries", 0), largest_entry_bytes=stats.get("max_entry_bytes", 0),
         events_validated=stats["events"], mismatching_lines=stats["mismatches"],
         fault_enumeration=dict(
@@ -356,5 +361,7 @@ def run(ctx):
         "hard state that commits it are in the prefix that survives a crash) and restarts at the newest marker "
         "ValidSnapshotEntries offers; PurgeKeepsWhatRestartNeeds is proved on MC_ZWal_purge under exactly these "
         "rules; on real traces the purge pass is bounded by the model (Purge(max, k)) and every image is reopened",
-        "concurrent use of one WAL (raft loop vs snapshot goroutine) is not modelled: calls are sequential",
+        "concurrent use of one WAL: the model is sequential; the two-goroutine stage logs the calls in the order the "
+        "WAL's own mutex serialized them (record order in the file, sync-hook reports taken under the mutex); data "
+        "races as such are not a verdict source of this technique (no -race)",
     ])
